@@ -398,8 +398,39 @@ def propagate_new_locals(fn, known, max_remove=0, last_first=False):
     return removed
 
 
+def split_tuple_assigns(fn):
+    """`a, b = x, y` -> `a = x; b = y` when no target occurs in a value and the values are side-effect free (names, chains, constants):
+    parallel and sequential assignment then coincide"""
+    def simple(e):
+        return isinstance(e, ast.Constant) or chain_text(e) is not None
+
+    def visit(block):
+        i = 0
+        while i < len(block):
+            st = block[i]
+            if isinstance(st, ast.Assign) and len(st.targets) == 1 and isinstance(st.targets[0], ast.Tuple) and isinstance(st.value, ast.Tuple) \
+                    and len(st.targets[0].elts) == len(st.value.elts) and all(isinstance(t, ast.Name) for t in st.targets[0].elts) \
+                    and all(simple(v) for v in st.value.elts):
+                tn = {t.id for t in st.targets[0].elts}
+                used = {x.id for v in st.value.elts for x in ast.walk(v) if isinstance(x, ast.Name)}
+                if not (tn & used) and len(tn) == len(st.targets[0].elts):
+                    new = [ast.copy_location(ast.Assign(targets=[t], value=v), st) for t, v in zip(st.targets[0].elts, st.value.elts)]
+                    block[i:i + 1] = new
+                    i += len(new)
+                    continue
+            for name in ("body", "orelse", "finalbody"):
+                b = getattr(st, name, None)
+                if isinstance(b, list) and b and isinstance(b[0], ast.stmt) and not isinstance(st, SCOPES):
+                    visit(b)
+            for h in getattr(st, "handlers", []) or []:
+                visit(h.body)
+            i += 1
+    visit(fn.body)
+
+
 def normalise_function(fn, rel, qual):
     """in-place normalisation of one function; registers ownership of its nodes"""
+    split_tuple_assigns(fn)
     base = baseline().get(rel, {}).get(qual)
     locs, aliases = analyse(fn)
     fbase0 = baseline().get(rel, {})
